@@ -767,8 +767,22 @@ def _explicit_dataclass_init(trees):
             fields = [b for b in c.body if isinstance(b, ast.AnnAssign) and isinstance(b.target, ast.Name)]
             if not fields or any(ast.unparse(b.annotation).startswith(('ClassVar', 'InitVar', 'typing.ClassVar')) for b in fields):
                 continue
-            if any(b.value is not None and not isinstance(b.value, ast.Constant) for b in fields):
+            def field_call(v):
+                return isinstance(v, ast.Call) and ((isinstance(v.func, ast.Name) and v.func.id == 'field') or (isinstance(v.func, ast.Attribute) and v.func.attr == 'field'))
+
+            def field_default(v):
+                # `field(compare=False)` has no default; `field(default=c)` has the constant c; default_factory / init=False are not modelled
+                if not field_call(v):
+                    return v
+                kw = {k.arg: k.value for k in v.keywords}
+                if v.args or 'default_factory' in kw or (isinstance(kw.get('init'), ast.Constant) and kw['init'].value is False):
+                    return False
+                return kw.get('default')
+            defaults_ = {b.target.id: (field_default(b.value) if b.value is not None else None) for b in fields}
+            if any(d is False or (d is not None and not isinstance(d, ast.Constant)) for d in defaults_.values()):
                 continue       # field(default_factory=...) and the like
+            for b in fields:
+                b.value = defaults_[b.target.id]
             args = ast.arguments(posonlyargs=[], args=[ast.arg(arg='self')] + [ast.arg(arg=b.target.id) for b in fields], vararg=None, kwonlyargs=[], kw_defaults=[], kwarg=None,
                                  defaults=[b.value for b in fields if b.value is not None])
             seen_default = False
